@@ -1,0 +1,39 @@
+//go:build verif
+// +build verif
+
+package livesql
+
+import (
+	"github.com/samsarahq/thunder/logger"
+	"github.com/siddontang/go-mysql/replication"
+)
+
+// VerifHook, when set, is called at the critical sections of the tracker and of
+// the poll loop (build tag verif): "register" (a dependency enters the tracker,
+// under the tracker's lock; a is the *dbResource, table its table), "deliver"
+// (an update is processed, under the tracker's lock; a is the number of deltas,
+// b whether the update carries a decode error), "invalidate" (a is the
+// *dbResource hit by the update being processed), "poll" (the poll loop
+// received an event; a is the event).
+var VerifHook func(kind string, table string, a, b interface{})
+
+func verifEv(kind string, table string, a, b interface{}) {
+	if h := VerifHook; h != nil {
+		h(kind, table, a, b)
+	}
+}
+
+// NewBinlogForVerif builds a Binlog around an in-process event stream: no MySQL
+// replication connection, column information still comes from ldb's connection.
+// RunPollLoop ends when the streamer reports an error.
+func NewBinlogForVerif(ldb *LiveDB, database string, streamer *replication.BinlogStreamer) *Binlog {
+	return &Binlog{
+		db:            ldb.DB,
+		database:      database,
+		tracker:       ldb.tracker,
+		streamer:      streamer,
+		tableVersions: make(map[string]uint64),
+		columnMaps:    make(map[string]*columnMap),
+		logger:        logger.New(),
+	}
+}
